@@ -19,6 +19,10 @@ pub struct Truth {
 pub fn truths() -> Vec<Truth> {
     use WordUse::*;
     vec![
+        // degenerate and odd widths: a width is a plain number of bits, none of its values means "unknown"
+        Truth { name: "uint0", width: 0, chain: vec![Bytes, Numeric, UnsignedNumeric] },
+        Truth { name: "uint1", width: 1, chain: vec![Bytes, Numeric, UnsignedNumeric] },
+        Truth { name: "int255", width: 255, chain: vec![Bytes, Numeric, SignedNumeric] },
         Truth { name: "uint8", width: 8, chain: vec![Bytes, Numeric, UnsignedNumeric] },
         Truth { name: "uint64", width: 64, chain: vec![Bytes, Numeric, UnsignedNumeric] },
         Truth { name: "uint256", width: 256, chain: vec![Bytes, Numeric, UnsignedNumeric] },
@@ -70,6 +74,9 @@ pub fn contradictions(t: &Truth) -> Vec<(J, &'static str)> {
     let mut v: Vec<(J, &'static str)> = Vec::new();
     let other_width = if t.width == 128 { 64 } else { 128 };
     v.push((J::Word(Some(other_width), usage_index(Bytes)), "different-width"));
+    if t.width != 0 {
+        v.push((J::Word(Some(0), usage_index(Bytes)), "different-width"));
+    }
     let top = *t.chain.last().unwrap();
     match top {
         UnsignedNumeric | Address => v.push((J::Word(None, usage_index(SignedNumeric)), "signed-vs-unsigned-or-address")),
@@ -260,10 +267,11 @@ fn word_cases(t: &Truth, f: &mut dyn FnMut(Case)) {
 /// component variables; component evidence must be joined through the induced equalities.
 fn constructor_cases(slice: usize, thorough: bool, f: &mut dyn FnMut(Case)) {
     let ts = truths();
-    let comps: Vec<&Truth> = vec![&ts[2], &ts[4], &ts[5]]; // uint256, address, bool
+    let by_name = |n: &str| ts.iter().find(|t| t.name == n).unwrap();
+    let comps: Vec<&Truth> = vec![by_name("uint256"), by_name("address"), by_name("bool"), by_name("uint0")];
     for (ci, ctor) in ["mapping", "dyn_array", "fixed_array"].into_iter().enumerate() {
         for (ki, kt) in comps.iter().enumerate() {
-            if ci * 3 + ki != slice {
+            if ci * 4 + ki != slice {
                 continue;
             }
             for vt in &comps {
@@ -377,7 +385,7 @@ impl Check for C15 {
         "model_checking"
     }
     fn chunks(&self, _tier: Tier) -> usize {
-        truths().len() + 9
+        truths().len() + 12
     }
     fn run_chunk(&self, tier: Tier, chunk: usize, ctx: &mut Ctx) {
         cases_of_chunk(chunk, tier.thorough(), &mut |c: Case| {
@@ -420,14 +428,14 @@ impl Check for C15 {
             total.get("judgement_sets").max(1),
             total.get("unifications").max(1),
             total.get("unifications"),
-            "hidden ground truths: 10 word types (uint8/64/256, int64, address, address used numerically, bool, bytes32, selector, function) and mapping / dynamic \
-             array / fixed array over component variables of type uint256, address, bool. Evidence = every subset of <= 3 weakenings \
+            "hidden ground truths: 13 word types (uint0/1/8/64/256, int64/255, address, address used numerically, bool, bytes32, selector, function) and mapping / dynamic \
+             array / fixed array over component variables of type uint256, address, bool, uint0. Evidence = every subset of <= 3 weakenings \
              of the truth on one variable plus every subset of <= 2 on a second variable declared equal (width known or not, usage \
              anywhere below the true one on its chain: Bytes < Numeric < Unsigned | Signed, Bytes < Numeric < Unsigned < Address, Bytes < Address | Bool | Selector | \
              Function), constructors stated twice through an equality with the component evidence split between the two sides, crossed with \
              `Any` on either side and on a third variable that is only declared equal (quick tier: for component evidence of at most one judgement per component). \
              Expected: the join computed on the chains (not with the tool's merge table), never a conflict, constructors kept with \
-             unified components. Then the same sets with exactly one plainly contradictory judgement (different width, signed vs \
+             unified components. Then the same sets with exactly one plainly contradictory judgement (different width incl. width 0, signed vs \
              unsigned / address, bool vs numeric, mapping vs array, mapping vs sized word, fixed arrays of different length): the class \
              must be a conflict. Every set runs on the real unifier under the canonical order and every single deviation at the \
              unification order points. states = judgement sets; transitions = unifications executed",
